@@ -284,10 +284,10 @@ def gen_ops(rng, ctx, n_ops, mix=None, depth=0):
             elif r < 0.9:
                 victim = rng.pick(ctx.peers) if ctx.peers and rng.chance(0.6) else 800000 + rng.randrange(50)
                 ops.append({'k': 'one', 'name': 'TRACE_DATA_THREAD_TERMINATE', 'q': rng.pick([0, 0, 3]),
-                            'a': [victim, 0, 0, 0]})
+                            'a': [victim, rng.pick([0, ctx.tid, victim, rng.word()]), rng.pick([0, rng.word()]), 0]})
             else:
                 ops.append({'k': 'one', 'name': 'TRACE_DATA_THREAD_TERMINATE_PID', 'q': 0,
-                            'a': [ctx.new_pid(), rng.word(), 0, 0]})
+                            'a': [ctx.new_pid(), rng.word(), rng.pick([0, ctx.tid]), 0]})
         elif f == 'lookup':
             ops.append(_with_between(rng, op_lookup(rng)))
         elif f == 'gstr':
@@ -440,6 +440,8 @@ def gen_logs(rng, n, tids=None, with_tai=False):
         for k in LOG_OPTIONAL_INT:
             if rng.chance(0.3):
                 ev[k] = rng.randrange(0, 1 << 31)
+        if 'pid' in ev and rng.chance(0.6):
+            ev['pid'] = rng.pick([1, 77, 4242])          # few distinct pids: several threads, and several names, per pid
         if rng.chance(0.3):
             ev['siu'] = {'$b': rng.randbytes(16).hex()}
         if rng.chance(0.3):
@@ -645,6 +647,10 @@ def gen_dump(rng, version=None, nthreads=None, mix=None, ops_hi=5, declare_all=T
     npids = rng.randint(1, max(1, nthreads))
     pids = [map_pid_base + i for i in range(npids)]
     names = [rng.ident(2, 10) for _ in pids]
+    if len(names) >= 2 and rng.chance(0.2):
+        stem = rng.ident(16, 16)
+        names[0] = stem + rng.ident(1, 3)          # 17..19 characters
+        names[1] = stem                            # exactly its first 16
     if rng.chance(0.25):
         names[0] = rng.pick(['2048', '7', '50001', str(map_pid_base + 1), '0'])     # a process named like a number (even like another pid)
     for i, th in enumerate(threads):
@@ -707,7 +713,8 @@ def dictionary():
                 elif isinstance(v, bytes) and 1 <= len(v) <= 64:
                     byts.add(v)
     _dict = {'ints': sorted(ints), 'strs': sorted(strs), 'bytes': sorted(byts),
-             'sizes': sorted(v for v in ints if 256 <= v <= (1 << 18))}
+             'sizes': sorted(v for v in ints if 256 <= v <= (1 << 18)),
+             'bytesizes': sorted(v for v in ints if (1 << 18) < v <= (1 << 25))}
     return _dict
 
 
@@ -732,3 +739,9 @@ def magic_record(rng):
     body = bytearray(rng.randbytes(64))
     body[:len(b)] = b[:64]
     return bytes(body)
+
+
+def dict_bytesize(rng):
+    """A byte count right above a (large) size the source names, or None."""
+    sizes = dictionary()['bytesizes']
+    return (rng.pick(sizes) + rng.pick([1, 8, 64])) if sizes else None
